@@ -40,6 +40,10 @@ C(name) == [dev |-> FALSE, name |-> name]
 D(name) == [dev |-> TRUE, name |-> name]
 NoC == C("")
 
+\* position i of text t is preceded by an odd number of backslashes
+RECURSIVE BackslashesBefore(_, _)
+BackslashesBefore(t, i) == IF i > 1 /\ t[i - 1] = 92 THEN 1 + BackslashesBefore(t, i - 1) ELSE 0
+EscapedAt(t, i) == BackslashesBefore(t, i) % 2 = 1
 \* all failing clauses of a string observation
 StrClauses(o) ==
     LET P == ParseStr(o.src)
@@ -80,6 +84,12 @@ StrClauses(o) ==
       IF ~Ok(o.re_matches) THEN C("RegexSameLanguage:exception")
       ELSE IF {o.re_matches.out[j] : j \in 1..Len(o.re_matches.out)} # {s \in Subjects : WildMatch(P, s)}
            THEN C("RegexSameLanguage") ELSE NoC,
+      \* the same value object rendered once more, now for a literal delimited by o.rdelim: every occurrence of the
+      \* delimiter is escaped (the literal ends at the first bare one) and the language is still the same
+      IF ~Ok(o.rd) THEN C("RegexLiteral:exception")
+      ELSE IF \E i \in 1..Len(o.rd.out.text) : o.rd.out.text[i] = o.rdelim /\ ~EscapedAt(o.rd.out.text, i) THEN C("RegexLiteral:bare-delimiter")
+      ELSE IF {o.rd.out.matches[j] : j \in 1..Len(o.rd.out.matches)} # {s \in Subjects : WildMatch(P, s)} THEN C("RegexLiteral:language")
+      ELSE NoC,
       \* regex transformation: plain = same language; the two ignore-case methods = the case-insensitive language
       LET SubjCI == SeqsUpTo({o.subjci[j] : j \in 1..Len(o.subjci)}, 3)
           set(r) == {r.out[j] : j \in 1..Len(r.out)}
